@@ -8,9 +8,9 @@ bookkeeping) followed by the evaluated arguments of the call.
 import z3
 
 from . import sym
-from .sym import (Arr, Mat, Obj, DF, Havoc, Opt, TS, TD, Unsupported, PyRaise, lift, ite, binop, cmpop,
+from .sym import (Arr, Mat, Obj, DF, Havoc, Opt, TS, TD, SymMap, Unsupported, PyRaise, lift, ite, binop, cmpop,
                   concrete_bool, concrete_int, to_bool, is_z3, fresh_name, const_arr)
-from .interp import (TypeTok, ModelNS, SymRange, SymEnum, SymZip, Seg, Family, RepStr, as_seg, _MISSING, _sz,
+from .interp import (TypeTok, ModelNS, SymRange, SymEnum, SymZip, Seg, Family, RepStr, FnStr, as_seg, _MISSING, _sz,
                      RepoClass, RepoFunc, BoundMethod)
 
 R0, R1 = z3.RealVal(0), z3.RealVal(1)
@@ -282,9 +282,27 @@ def sp_vstack(I, parts, **kw):
 
 
 def sp_csr_matrix(I, arg, shape=None, **kw):
+    """csr_matrix(M) copies; csr_matrix((vals, (rows, cols)), shape) sums duplicate entries (A2):
+    entry (r, c) = sum_e [rows_e = r and cols_e = c] vals_e"""
     if isinstance(arg, Mat):
         return arg.copy()
-    raise Unsupported('csr_matrix((vals,(rows,cols)))')
+    if isinstance(arg, tuple) and len(arg) == 2 and isinstance(arg[1], tuple) and shape is not None:
+        vals, (rows, cols) = arg
+        vals, rows, cols = _as_arr(I, vals), _as_arr(I, rows), _as_arr(I, cols)
+        E = vals.n
+        vf, rf, cf = vals.f, rows.f, cols.f
+
+        def entry(r, c):
+            pr, pcn = z3.Int(fresh_name('coo_r')), z3.Int(fresh_name('coo_c'))
+            sym.SCOPE.extend([pr, pcn])
+            try:
+                P = sym.SUMS.prefix(lambda e: ite(z3.And(to_bool(cmpop('Eq', rf(e), pr)), to_bool(cmpop('Eq', cf(e), pcn))), vf(e), R0), I.pc)
+            finally:
+                del sym.SCOPE[-2:]
+            t = lift(P(E))
+            return z3.substitute(t, (pr, lift(r)), (pcn, lift(c))) if is_z3(t) else t
+        return Mat(shape[0], shape[1], entry, sparse=True)
+    raise Unsupported('csr_matrix form')
 
 
 def sp_coo_matrix(I, arg, **kw):
@@ -509,6 +527,8 @@ def construct(I, tok, args, kwargs):
 def b_len(I, v):
     if isinstance(v, Havoc):
         return v
+    if isinstance(v, SymMap):
+        return len(v)
     if isinstance(v, (list, tuple, dict, str, set)):
         return len(v)
     if isinstance(v, Arr):
@@ -519,7 +539,7 @@ def b_len(I, v):
         return v.n if v.n is not None else 0
     if isinstance(v, Seg):
         return _sz(v.total())
-    if isinstance(v, RepStr):
+    if isinstance(v, (RepStr, FnStr)):
         return v.n
     if isinstance(v, Obj) and v.has('__len__'):
         return v.get('__len__')
@@ -580,7 +600,7 @@ def _isinst(I, v, t):
         return name == 'list'
     if isinstance(v, tuple):
         return name == 'tuple'
-    if isinstance(v, dict):
+    if isinstance(v, (dict, SymMap)):
         return name in ('dict', 'Dict')
     if v is None:
         return False
@@ -660,6 +680,8 @@ def builtin_number(I, kind, v=0):
 
 
 def b_list(I, v=()):
+    if isinstance(v, SymMap):
+        return v.keys()
     if isinstance(v, (list, tuple, range, set, dict)):
         return list(v)
     if isinstance(v, Arr):
@@ -863,6 +885,16 @@ def value_attr(I, o, attr):
         if attr in ('tz_localize',):
             return lambda I_, tz: TS(localize(o.t, tz), tz) if tz is not None else TS(o.t, None)
         raise Unsupported('Timestamp.' + attr)
+    if isinstance(o, SymMap):
+        if attr == 'copy':
+            return lambda I_: o.copy()
+        if attr == 'keys':
+            return lambda I_: o.keys()
+        if attr == 'values':
+            return lambda I_: [v for _, v in o.items]
+        if attr == 'items':
+            return lambda I_: list(o.items)
+        raise Unsupported('dict.' + attr)
     if isinstance(o, dict):
         if attr == 'copy':
             return lambda I_: dict(o)
@@ -989,6 +1021,18 @@ def arr_attr(I, a, attr):
         return lambda I_, _f_a=a.f: Arr(a.n, lambda i: sym.is_null(_f_a(i)))
     if attr == 'notnull':
         return lambda I_, _f_a=a.f: Arr(a.n, lambda i: sym.s_not(sym.is_null(_f_a(i))) if not isinstance(sym.is_null(_f_a(i)), bool) else (not sym.is_null(_f_a(i))))
+    if attr == 'map':
+        def smap(I_, mp):
+            if isinstance(mp, SymMap):
+                j = z3.Int(fresh_name('mp'))
+                probe = mp.has_key(a.f(j), I.resolve_bool)
+                if probe is not True:
+                    I.require('map-key-present', z3.ForAll([j], z3.Implies(z3.And(j >= 0, j < lift(a.n)), to_bool(probe))), kind='index')
+                return Arr(a.n, lambda i, _f=a.f: mp.lookup(_f(i)), kind=a.kind)
+            if isinstance(mp, dict):
+                return Arr(a.n, lambda i, _f=a.f: mp[_f(i)], kind=a.kind)
+            raise Unsupported('Series.map of ' + type(mp).__name__)
+        return smap
     if attr == 'isin':
         def isin(I_, other):
             other = _as_arr(I, other)
@@ -1178,6 +1222,8 @@ def df_attr(I, df, attr):
         return lambda I_, **kw: df.copy()
     if attr == 'reset_index':
         def reset_index(I_, inplace=False, drop=False, **kw):
+            if inplace:
+                _df_frame(I, df, 'reset_index')
             target = df if inplace else df.copy()
             n = target.n if target.n is not None else 0
             if not drop:
@@ -1190,12 +1236,16 @@ def df_attr(I, df, attr):
         return reset_index
     if attr == 'rename':
         def rename(I_, columns=None, inplace=False, **kw):
+            if inplace:
+                _df_frame(I, df, 'rename')
             target = df if inplace else df.copy()
             target.cols = {columns.get(k, k): v for k, v in target.cols.items()}
             return None if inplace else target
         return rename
     if attr == 'drop':
         def drop(I_, columns=None, inplace=False, **kw):
+            if inplace:
+                _df_frame(I, df, 'drop')
             target = df if inplace else df.copy()
             for c in columns:
                 target.cols.pop(c, None)
@@ -1203,6 +1253,8 @@ def df_attr(I, df, attr):
         return drop
     if attr == 'set_index':
         def set_index(I_, name, inplace=False, **kw):
+            if inplace:
+                _df_frame(I, df, 'set_index')
             target = df if inplace else df.copy()
             target.index = target.cols.pop(name)
             return None if inplace else target
@@ -1257,6 +1309,7 @@ def value_attr(I, o, attr):      # noqa: F811  (extends the dispatcher above)
 
 
 def df_setattr(I, df, attr, v):
+    _df_frame(I, df, attr)
     if attr == 'index':
         v = _as_arr(I, v)
         if df.n is not None:
@@ -1267,8 +1320,14 @@ def df_setattr(I, df, attr, v):
     raise Unsupported('DataFrame.%s = ' % attr)
 
 
+def _df_frame(I, df, what):
+    if id(df) in I.protect:
+        I.require(f'frame:{I.protect[id(df)]}.{what}', z3.BoolVal(False), kind='frame')
+
+
 def df_setitem(I, df, key, v):
     """mapping[col] = scalar | array"""
+    _df_frame(I, df, f'[{key}]')
     if not isinstance(key, str):
         raise Unsupported('DataFrame store key')
     if isinstance(v, (list, tuple)):
@@ -1333,3 +1392,84 @@ def obj_getitem(I, o, idx, what):
 
 def matmul(I, a, b):
     raise Unsupported('@')
+
+
+# ----------------------------------------------------------------------------- cvxpy (uninterpreted constructors)
+class Cvx:
+    """a cvxpy expression / constraint / problem as an uninterpreted constructor term: kind + arguments.
+    The solver behind Problem.solve is external (A1); what is verified is which problem is handed to it."""
+
+    def __init__(self, kind, *args, **kw):
+        self.kind, self.args, self.kw = kind, args, kw
+
+    def __repr__(self):
+        return f"Cvx<{self.kind}>"
+
+
+def cvx_binop(name, a, b):
+    if name == 'MatMult':
+        return Cvx('matmul', a, b)
+    return Cvx(name, a, b)
+
+
+def cvx_cmp(name, a, b):
+    op = {'LtE': '<=', 'GtE': '>=', 'Eq': '=='}.get(name)
+    if op is None:
+        raise Unsupported('cvxpy comparison ' + name)
+    return Cvx('constraint', op, a, b)
+
+
+def _cvx_variable(I, shape, boolean=False, **kw):
+    n = shape[0] if isinstance(shape, (tuple, list)) else shape
+    return Cvx('Variable', n, boolean=boolean, uid=fresh_name('cvxvar'))
+
+
+def _cvx_problem(I, objective, constraints=None):
+    return Cvx('Problem', objective, list(constraints or []), uid=fresh_name('cvxprob'))
+
+
+def _cvx_maximize(I, e):
+    return Cvx('Maximize', e)
+
+
+CVX = ModelNS('cvxpy', dict(Variable=_cvx_variable, Problem=_cvx_problem, Maximize=_cvx_maximize, __version__='1.6.0'))
+MODULES['cvxpy'] = CVX
+
+
+def cvx_attr(I, o, attr):
+    if o.kind == 'Problem':
+        if attr == 'solve':
+            def solve(I_, solver=None, **kw):
+                o.kw['solved_with'] = solver
+                return None
+            return solve
+        if attr == 'status':
+            if 'status' not in o.kw:
+                o.kw['status'] = z3.Const(fresh_name('cvx_status'), sym.Str)
+            return o.kw['status']
+        if attr == 'value':
+            if 'value' not in o.kw:
+                o.kw['value'] = z3.Real(fresh_name('cvx_value'))
+            return o.kw['value']
+    if o.kind == 'Variable':
+        if attr == 'value':
+            if 'value' not in o.kw:
+                f = z3.Function(fresh_name('cvx_x'), z3.IntSort(), z3.RealSort())
+                o.kw['value'] = Arr(o.args[0], lambda i: f(lift(i)))
+            return o.kw['value']
+    if o.kind == 'constraint' and attr == 'dual_value':
+        if 'dual' not in o.kw:
+            o.kw['dual'] = Obj('dual_value', of=o)
+        return o.kw['dual']
+    if attr == 'T':
+        return o
+    raise Unsupported(f'cvxpy {o.kind}.{attr}')
+
+
+_prev_value_attr = value_attr
+
+
+def value_attr(I, o, attr):      # noqa: F811
+    if isinstance(o, Cvx):
+        return cvx_attr(I, o, attr)
+    return _prev_value_attr(I, o, attr)
